@@ -26,6 +26,7 @@ EXPLANATION = (
     ' (B6) tables shared between rows through a key function use a lossless key; (B7) attributes of the long-lived stage objects (the Balancer and the objects it stores) that are written on the pipeline path are re-assigned on every path before they are read - reads that only feed logging and memo tables keyed by every used parameter are exempt; B4 follows shared containers through parameters, attributes, aliases, returned values and memoised results (alias flow) and exempts complete memo tables.'
     ' (B9) no stage returns early under all()/any() over the batch unless the skipped work is restricted to the rows the test is about; (B10) the command line does not append result chunks under a column layout taken from chunk data.'
     ' (B11) no element is picked out of a set by iteration order; (B12) no min()/max() over a boolean-mask selection that can be empty.'
+    " (B13) nobody edits a container display that is a parameter default (followed through self.x and self.stage.x, package-wide). (B14) where a per-reaction fault becomes the row's issue text the handlers include a catch-all or the awaited work is itself fenced. (B15) every per-batch statistic is additive: none derives from a set, a dict of values or an extreme."
 )
 ASSUMPTIONS = [
     "joblib returns results in submission order unless return_as='generator_unordered'",
